@@ -5,3 +5,6 @@ from __future__ import annotations
 class FakeFsCache:
     def isdir(self, path):
         raise NotImplementedError
+
+    def isfile(self, path):
+        raise NotImplementedError
